@@ -568,6 +568,11 @@ func StreamSetForInterfaceFromArray(list []interface{}) *StreamSetForInterfaceDe
 func StreamSetForInterfaceFromMap(theMap map[interface{}]*StreamForInterfaceDef) *StreamSetForInterfaceDef {
 	resultMap := make(map[interface{}]interface{}, len(theMap))
 	for k, v := range theMap {
+		if v == nil {
+			// Keep a nil Stream as an untyped nil(the methods check `v != nil` on the interface{} value)
+			resultMap[k] = nil
+			continue
+		}
 		resultMap[k] = v
 	}
 	result := StreamSetForInterfaceDef{
